@@ -44,6 +44,15 @@ for line in sys.stdin:
 			out += ' %s %d %d %s %d' % (dt.isoformat(), int(Date(dt)), a == dt, '-'.join(str(v) for v in tuple(st)[:6]), int(Date(st)))
 			bd, bs = b.datetime, b.gmtime
 			out += ' %d%d%d %d%d%d' % (a < bd, a > bd, a == bd, a < bs, a > bs, a == bs)
+			# the dates carried by the conditional header fields
+			from httoop import Headers
+			ta_, tb_ = bytes(a).decode('ascii'), bytes(b).decode('ascii')
+			for n1, n2 in (('Last-Modified', 'If-Modified-Since'), ('If-Modified-Since', 'If-Unmodified-Since'), ('If-Unmodified-Since', 'Last-Modified')):
+				h = Headers()
+				h.parse(('%s: %s\r\n%s: %s' % (n1, ta_, n2, tb_)).encode('ascii'))
+				x, y = h.element(n1), h.element(n2)
+				for other in (y, b, tb_):
+					out += ' %d%d%d%d' % (x == other, x != other, x < other, x > other)
 			print(out)
 		else:
 			print('bad-op')
